@@ -48,7 +48,7 @@ FRAGMENTS = [
     "a = b + c(1)", "call s(a, b)", "z = F(1) + A", "w = P // G(1, 2)", "x = a%b%c(1)%d",
     # broken / partial lines
     "integer ::", "integer, dimension(", "real(kind=", "character(len=", "call s(a, &", "&  b)", "x = 'unclosed", 'y = "unclosed',
-    "x = (a + (b", ";", "a = 1; b = 2", "contains; subroutine q", "type(", "class(t", "use", "module", "subroutine", "function",
+    "x = (a + (b", ";", "a = 1; b = 2", "associate (, q => a)", "associate (q => a,)", "associate ()", "contains; subroutine q", "type(", "class(t", "use", "module", "subroutine", "function",
     "interface ;", "procedure(", "generic ::", "end ;", "=>", "%", "::", "a%", ",", "(", ")", "&", "! comment", "!> doc", "!! doc",
     "!< doc", "",
     # preprocessor
@@ -197,6 +197,22 @@ def pp_sequence_cases(maxlen):
             yield ("pp_sequences", "k.F90", "\n".join(PP_LINES[i] for i in combo) + "\n", f"pp_lines={list(combo)}")
 
 
+CORE = ["module m", "program p", "subroutine s(a, b)", "function f(x) result(r)", "end", "end module", "end subroutine s", "end program p",
+        "end type", "end interface", "end do", "end if", "contains", "implicit none", "private", "use m", "integer :: a", "integer a, b",
+        "type :: t", "type(t) :: v", "interface", "interface gi", "block", "do i = 1, 10", "if (a > b) then", "else", "select case (a)",
+        "case (1)", "associate (q => a)", "a = b + c(1)", "call s(a, b)", "procedure(foo) :: bar", "module procedure mp", "include 'inc.f90'",
+        "a = 1; b = 2", "! comment", "!> doc", ""]
+
+
+def core3_cases():
+    """All 3-line sequences over a core alphabet of statement openers / ENDs / declarations (quick tier:
+    defects that need a header-less scope, its END and something after it)."""
+    for combo in itertools.product(range(len(CORE)), repeat=3):
+        for name, fixed in (("k.f90", False), ("k.F", True)):
+            lines = [fixed_form(CORE[i]) if fixed else CORE[i] for i in combo]
+            yield ("core3", name, "\n".join(lines) + "\n", f"core={list(combo)}")
+
+
 def corpus():
     """[(relative name, text)] of the repository's sample sources."""
     base = os.path.join(core.REPO, "test", "test_source")
@@ -260,6 +276,7 @@ def main(ctx):
     fams = [
         ("fragments", fragment_cases(2 if q else 3), 256),
         ("pp_sequences", pp_sequence_cases(4 if q else 5), 256),
+        ("core3", core3_cases(), 256),
         ("prefixes", prefix_cases(by_char=not q), 64),
         ("mutants", mutant_cases(token_level=not q), 64),
     ]
